@@ -1811,12 +1811,13 @@ def stack_harness(g, cfg, spec, npush=27, nsym=3, witness=False):
     H = [common_head(g, cfg, spec, 1)]
     H.append('#define VP_NPUSH %d' % npush)
     H.append('#define VP_NSYM %d' % nsym)
+    H.append('#define VP_NONREENTRANT %d' % (1 if cfg.api == 'nr' else 0))
     if witness:
         H.append('#define VP_WITNESS 1')
     H.append(r'''
 unsigned char vpi_val[VP_NPUSH], vpi_op[VP_NSYM], vpi_arg[VP_NSYM];
-int vpi_sc0, vpi_underflow;
-static int vp_model[VP_NPUSH + VP_NSYM + 1], vp_depth;
+int vpi_sc0, vpi_underflow, vpi_destroy, vpi_reuse_push;
+static int vp_model[VP_NPUSH + VP_NSYM + 1], vp_depth, destroyed_depth;
 
 int main(void) {
   VP_DECL_SCANNER
@@ -1825,10 +1826,12 @@ int main(void) {
 #else
   for (int i = 0; i < VP_NPUSH; i++) vpi_val[i] = nondet_uchar();
   for (int i = 0; i < VP_NSYM; i++) { vpi_op[i] = nondet_uchar(); vpi_arg[i] = nondet_uchar(); }
-  vpi_sc0 = nondet_int(); vpi_underflow = nondet_int();
+  vpi_sc0 = nondet_int(); vpi_underflow = nondet_int(); vpi_destroy = nondet_int(); vpi_reuse_push = nondet_int();
 #endif
   VP_ASSUME(vpi_sc0 >= 0 && vpi_sc0 < VP_NSC);
   VP_ASSUME(vpi_underflow == 0 || vpi_underflow == 1);
+  VP_ASSUME(vpi_destroy == 0 || vpi_destroy == 1);
+  VP_ASSUME(vpi_reuse_push == 0 || vpi_reuse_push == 1);
   /* the deep part uses a fixed pattern of conditions (sizes and indices stay concrete); the short
    * history before it is chosen by the solver */
   for (int i = 0; i < VP_NPUSH; i++) VP_ASSUME(vpi_val[i] == (unsigned char)((i * 3 + 1) % VP_NSC));
@@ -1858,11 +1861,31 @@ int main(void) {
     if (vp_depth > 0) VP_ASSERT(yy_top_state(VP_A0) == vp_model[vp_depth - 1], "yy_top_state() is the condition a pop would return to");
 #endif
   }
+#if VP_NONREENTRANT
+  /* (b') a destroyed non-reentrant scanner can be used again as if fresh: whatever the
+   * stack held, after yylex_destroy() the condition is INITIAL and the stack is empty */
+  if (vpi_destroy) {
+    destroyed_depth = vp_depth;
+    yylex_destroy();
+    vp_depth = 0; cur = 0;
+    VP_ASSERT(VP_START() == 0, "after yylex_destroy() the scanner starts in INITIAL again");
+    if (vpi_reuse_push) {
+      vp_model[vp_depth++] = cur; cur = vpi_arg[0]; yy_push_state(vpi_arg[0]);
+      VP_ASSERT(VP_START() == cur, "push after reuse");
+      yy_pop_state(); cur = vp_model[--vp_depth];
+      VP_ASSERT(VP_START() == cur, "pop after reuse returns to INITIAL");
+    }
+  }
+#endif
   for (int i = 0; i < VP_NSYM; i++) if (vp_depth > 0) { yy_pop_state(VP_A0); cur = vp_model[--vp_depth]; }
   VP_ASSERT(vp_depth == 0, "model stack empty");
   VP_ASSERT(VP_START() == cur, "stack emptied");
 #ifdef VP_WITNESS
+#if VP_NONREENTRANT
+  VP_ASSERT(!(vpi_destroy && destroyed_depth >= 1), "WITNESS: scanner destroyed with a non-empty start-condition stack and used again");
+#else
   VP_ASSERT(!(vpi_op[0] == 0 && vpi_op[1] == 1 && vpi_op[2] == 0), "WITNESS: push, pop, push history");
+#endif
 #endif
   /* (c) underflow is a reported fatal error */
   if (vpi_underflow) {
